@@ -282,7 +282,7 @@ func init() {
 
 	register(&Rule{
 		ID: "C09.R4", Props: []string{"C09"}, Min: 3,
-		Doc: "no unsynchronised write to shared engine state inside the cone of the concurrent entry points: every store to a package-level variable or to a field (or map held in a field) of Vue/ExprEvaluator/Loader happens with a sibling mutex held in write mode, inside sync.Once.Do, or on a freshly allocated object",
+		Doc: "no unsynchronised write to shared engine state inside the cone of the concurrent entry points: every store to a package-level variable or to a field (or map held in a field) of Vue/ExprEvaluator/Loader — and every call outside the module that is handed the address of a struct embedded in such an object (a pointer-receiver method of a stateful helper, e.g. a reused expr VM) — happens with a sibling mutex held in write mode, inside sync.Once.Do, or on a freshly allocated object",
 		Run: func(p *Prog, c *Ctx) {
 			cone := p.Cone(p.concurrentEntries()...)
 			onceFns := map[*ssa.Function]bool{}
@@ -306,6 +306,33 @@ func init() {
 						addr, what = x.Addr, "store"
 					case *ssa.MapUpdate:
 						addr, what = x.Map, "map update"
+					case ssa.CallInstruction:
+						// the address of a struct that lives inside the shared object, handed to code outside
+						// the module (typically as the receiver of a pointer method): that code may write it
+						cc := x.Common()
+						if callee := cc.StaticCallee(); callee != nil && inModule(callee) {
+							return
+						}
+						for _, a := range cc.Args {
+							fa, ok := a.(*ssa.FieldAddr)
+							if !ok {
+								continue
+							}
+							pt, ok := fa.Type().Underlying().(*types.Pointer)
+							if !ok {
+								continue
+							}
+							if _, isStruct := pt.Elem().Underlying().(*types.Struct); !isStruct {
+								continue
+							}
+							if pk, _ := namedType(pt.Elem()); pk == "sync" || pk == "sync/atomic" {
+								continue
+							}
+							addr, what = fa, "call of "+calleeName(cc)+" with the address of"
+						}
+						if addr == nil {
+							return
+						}
 					default:
 						return
 					}
@@ -327,7 +354,10 @@ func init() {
 						return
 					}
 					examined++
-					key := fmt.Sprintf("%s: %s to %s", shortName(fn), what, desc)
+					if !strings.HasPrefix(what, "call ") {
+						what += " to"
+					}
+					key := fmt.Sprintf("%s: %s %s", shortName(fn), what, desc)
 					held := 0
 					for k, v := range facts[in] {
 						if strings.HasPrefix(string(k), root) && v > held {
@@ -340,7 +370,7 @@ func init() {
 					case onceFns[fn]:
 						c.ok(key, p.instrPos(in), "inside sync.Once.Do")
 					default:
-						c.fail(key, p.instrPos(in), what+" to "+desc+" is reachable from a concurrent entry point without a lock, Once or fresh object")
+						c.fail(key, p.instrPos(in), what+" "+desc+" is reachable from a concurrent entry point without a lock, Once or fresh object: two renders running at the same time use the same memory")
 					}
 				})
 			}
@@ -351,7 +381,7 @@ func init() {
 
 	register(&Rule{
 		ID: "C09.R6", Props: []string{"C09", "C16", "C11"}, Min: 4,
-		Doc: "per-render state: the v-once `seen` set is only ever assigned a fresh map (in the context constructor) or the parent context's own set (include chain); no package-level or engine-level storage holds it; every render entry builds its context through that constructor",
+		Doc: "per-render state: the v-once `seen` set is only ever assigned a fresh map (in the context constructor) or the parent context's own set (include chain); no package-level or engine-level storage holds it; every render entry builds its context through that constructor, and nothing that already holds a render's context builds a second one",
 		Run: func(p *Prog, c *Ctx) {
 			root := p.PkgBy[modPath]
 			var seenField *types.Var
@@ -425,7 +455,29 @@ func init() {
 			for _, fn := range p.Funcs {
 				for _, site := range callsIn(fn) {
 					if site.Common().StaticCallee() == ctor {
-						c.ok(shortName(fn)+": NewVueContext", p.instrPos(site), "context built by the constructor (fresh seen set)")
+						// a function that is handed the context of the render in progress derives from it
+						// (WithTemplate, a copy); building another one starts a second, empty seen set
+						inRender := false
+						for _, prm := range fn.Params {
+							if _, nm := namedType(prm.Type()); nm == "VueContext" {
+								inRender = true
+							}
+						}
+						if inRender {
+							// ... unless the running render's set is installed in the new context
+							eachInstr(fn, func(in ssa.Instruction) {
+								if st, ok := in.(*ssa.Store); ok && fieldVar(st.Addr) == seenField {
+									for _, o := range p.origins(st.Val, OriginOpts{}) {
+										if loadedField(o) == seenField {
+											inRender = false
+										} else if f, ok := o.(*ssa.Field); ok && fieldVar(f) == seenField {
+											inRender = false
+										}
+									}
+								}
+							})
+						}
+						c.check(!inRender, shortName(fn)+": NewVueContext", p.instrPos(site), "context built by the constructor (fresh seen set) at a render entry", "a function that works inside a render in progress (it receives that render's context) builds a new context with the constructor: what is evaluated under it has its own, empty v-once record, so elements already emitted in this render are emitted again")
 					}
 				}
 			}
